@@ -220,7 +220,7 @@ def run(m, chk):
         "on every return site the returned curve depends on both operands, and on the weights of an operand unless the path established `weights is None` (DEP-MAY). "
         "Pointwise equality of the values and the correctness of the combined knot vector are not decided."
     )
-    chk.decides = ["AXIS-FIRST (the control points of the product A * B start with the axis of the basis functions whatever the shape of one control point: followed axis by axis through moveaxis / tensordot / @)", "MATRIX-OPERAND (each matrix of add_spline_curve multiplies the control points of its own operand)", "INPLACE-MIX (no in-place update whose target comes from one operand and whose value from the other: the number type of one operand is not forced on the other)", "UNION-DEGREE (U | V compares multiplicities written in the common degree max(p, q))", "AXIS-ORDER (the table of pairwise point products of A @ B has its axes in the order of the product matrix)", "END-EXACT (the closed sample nodes of the product are mapped onto each span with an expression that is exact at both ends)", "ELEVATED-VECTOR (the knot vector written next to Operations.degree_increase(U, t) is U + t * U.knots)", "SAME-INTERVAL (the interval guard of the four operators is an equality of both ends, not a one-sided containment)", "SWAP-SYMMETRIC (the product knot vector treats both operands alike)", "DEHOMOG-PAIR (points divided by a list of weights are stored with exactly those weights)", "RESULT-HOMOG (every curve an operator returns is of degree 0 in the weights of each operand: no numerator / denominator factor missing or doubled)", "AFFINE-MAP (a result on the operand's own basis maps the control points affinely)", "MEMO-KEY (no function on the path is memoised by the value of numbers / knot vectors)", "PURE", "FRESH", "GATE(limits ⇒ ValueError)", "DELEGATE", "DEP-MAY per return site", 'POLY-ONLY (polynomial helpers only under weights is None)', 'INTERVAL', 'REFLECTED (x - A, M @ A, x / A are not A - x, A @ M, A / x)', 'ZIP-ALIGN (parallel lists are zipped with the same slice)']
+    chk.decides = ["INT-MATRIX (the transformation matrices of A + B — identities of Python ints when the knot vectors coincide — are multiplied as matrices of objects, not as int64 arrays)", "AXIS-FIRST (the control points of the product A * B start with the axis of the basis functions whatever the shape of one control point: followed axis by axis through moveaxis / tensordot / @)", "MATRIX-OPERAND (each matrix of add_spline_curve multiplies the control points of its own operand)", "INPLACE-MIX (no in-place update whose target comes from one operand and whose value from the other: the number type of one operand is not forced on the other)", "UNION-DEGREE (U | V compares multiplicities written in the common degree max(p, q))", "AXIS-ORDER (the table of pairwise point products of A @ B has its axes in the order of the product matrix)", "END-EXACT (the closed sample nodes of the product are mapped onto each span with an expression that is exact at both ends)", "ELEVATED-VECTOR (the knot vector written next to Operations.degree_increase(U, t) is U + t * U.knots)", "SAME-INTERVAL (the interval guard of the four operators is an equality of both ends, not a one-sided containment)", "SWAP-SYMMETRIC (the product knot vector treats both operands alike)", "DEHOMOG-PAIR (points divided by a list of weights are stored with exactly those weights)", "RESULT-HOMOG (every curve an operator returns is of degree 0 in the weights of each operand: no numerator / denominator factor missing or doubled)", "AFFINE-MAP (a result on the operand's own basis maps the control points affinely)", "MEMO-KEY (no function on the path is memoised by the value of numbers / knot vectors)", "PURE", "FRESH", "GATE(limits ⇒ ValueError)", "DELEGATE", "DEP-MAY per return site", 'POLY-ONLY (polynomial helpers only under weights is None)', 'INTERVAL', 'REFLECTED (x - A, M @ A, x / A are not A - x, A @ M, A / x)', 'ZIP-ALIGN (parallel lists are zipped with the same slice)']
     chk.not_decided = ["(A op B)(u) = A(u) op B(u) as values", "correctness of the combined knot vector (fails for different degrees with interior knots — consequence of the | defect, DESIGN §5)"]
     for name in ALL:
         q = B + name
@@ -252,6 +252,9 @@ def run(m, chk):
         from .extra import same_interval
 
         same_interval(r, chk, ctx, guards, q)
+    from .extra import int_matrix
+
+    int_matrix(r, chk, ["curves.BaseCurve.__add__", "heavy.Operations.matrix_transformation"], floor=3)
     from .extra import axis_first
 
     axis_first(r, chk, ["curves.BaseCurve.__mul__"])
